@@ -130,7 +130,8 @@ def check_c17(prop, tier, seed, work, t0):
     required += ["index:out:" + k for k in ("random", "permuted", "identity", "reversed_stride")]
     required += ["shape:in:" + s for s in ("contiguous", "stride", "index", "broadcast", "register")]
     required += ["shape:out:" + s for s in ("contiguous", "stride", "index", "register")]
-    required += ["mode:result_aliases_input", "values:trials_with_noncanonical_input", "values:noncanonical_result_lanes"]
+    required += ["mode:result_aliases_input", "mode:result_register_is_input_register", "mode:concurrent_callers_trials",
+                 "values:trials_with_noncanonical_input", "values:noncanonical_result_lanes"]
     required += ["trials:batch", "trials:avx", "trials:avx512", "par:parcpy", "par:parSetZero", "par:size_zero", "par:thread_arg_nonpositive",
                  "par:thread_arg:INT_MIN", "par:thread_arg:-1", "par:thread_arg:0", "par:thread_arg:1", "par:thread_arg:64", "par:thread_arg:1000",
                  "par:thread_arg:size", "par:thread_arg:size+1", "par:size:1048579", "par:variant:guard_upper", "par:variant:guard_lower",
